@@ -47,6 +47,13 @@ mod iso {
         pub fn get(&self) -> u64 {
             unsafe { std::ptr::read_volatile(self.ptr) }
         }
+        /// index of the block the child is running
+        pub fn set_block(&self, v: u64) {
+            unsafe { std::ptr::write_volatile(self.ptr.add(1), v) }
+        }
+        pub fn get_block(&self) -> u64 {
+            unsafe { std::ptr::read_volatile(self.ptr.add(1)) }
+        }
     }
 
     #[derive(Serialize, Deserialize, Default, Clone)]
@@ -73,16 +80,31 @@ mod iso {
         pub notes: BTreeSet<String>,
     }
 
-    pub enum Exit {
-        Done(Box<Out>),
-        Died { how: String, at: u64 },
+    pub struct Died {
+        pub how: String,
+        pub block: u64,
+        pub at: u64,
+    }
+    pub struct Emitter {
+        file: std::fs::File,
+    }
+    impl Emitter {
+        /// one finished block
+        pub fn emit(&mut self, block: usize, out: &Out) {
+            use std::io::Write;
+            let mut line = serde_json::to_vec(&(block, out)).expect("serialize block report");
+            line.push(b'\n');
+            self.file.write_all(&line).expect("write block report");
+        }
     }
 
-    /// Fork; run `f` in the child with resource limits; collect its `Out`.
-    pub fn run_child(scratch: &Path, shared: &Shared, f: impl FnOnce(&mut Out)) -> Exit {
-        let outp = scratch.join("child_out.json");
+    /// Fork; run `f` in the child with resource limits; collect the per-block
+    /// reports it emitted (also those emitted before a death).
+    pub fn run_child(scratch: &Path, shared: &Shared, f: impl FnOnce(&mut Emitter)) -> (Vec<(usize, Out)>, Option<Died>) {
+        let outp = scratch.join("child_out.jsonl");
         let _ = std::fs::remove_file(&outp);
         shared.set(u64::MAX);
+        shared.set_block(u64::MAX);
         let pid = unsafe { libc::fork() };
         if pid < 0 {
             vcore::machinery("fork failed");
@@ -97,14 +119,23 @@ mod iso {
                 let fsz = libc::rlimit { rlim_cur: 1 << 30, rlim_max: 1 << 30 };
                 libc::setrlimit(libc::RLIMIT_FSIZE, &fsz);
             }
-            let mut out = Out::default();
-            if let Err(p) = vcore::catch(|| f(&mut out)) {
-                out.harness_panic = Some(p);
-            }
-            unsafe { libc::alarm(0) };
-            let tmp = scratch.join("child_out.tmp");
-            let ok = std::fs::write(&tmp, serde_json::to_vec(&out).unwrap_or_default()).is_ok() && std::fs::rename(&tmp, &outp).is_ok();
-            unsafe { libc::_exit(if ok { 0 } else { 3 }) };
+            let code = match std::fs::OpenOptions::new().create(true).append(true).open(&outp) {
+                Ok(file) => {
+                    let mut em = Emitter { file };
+                    match vcore::catch(|| f(&mut em)) {
+                        Ok(()) => 0,
+                        Err(p) => {
+                            let _ = std::fs::write(scratch.join("child_harness_panic.txt"), p);
+                            4
+                        }
+                    }
+                }
+                Err(_) => 3,
+            };
+            unsafe {
+                libc::alarm(0);
+                libc::_exit(code)
+            };
         }
         let mut status: libc::c_int = 0;
         loop {
@@ -116,27 +147,32 @@ mod iso {
                 vcore::machinery("waitpid failed");
             }
         }
-        if libc::WIFEXITED(status) && libc::WEXITSTATUS(status) == 0 {
-            let b = std::fs::read(&outp).unwrap_or_default();
-            match serde_json::from_slice::<Out>(&b) {
-                Ok(o) => {
-                    if let Some(p) = &o.harness_panic {
-                        panic!("harness panic inside child (outside any oracle): {p}");
-                    }
-                    Exit::Done(Box::new(o))
-                }
-                Err(e) => vcore::machinery(&format!("child report does not parse: {e}")),
+        let mut outs = Vec::new();
+        let b = std::fs::read(&outp).unwrap_or_default();
+        for line in b.split(|c| *c == b'\n') {
+            if line.is_empty() {
+                continue;
             }
+            match serde_json::from_slice::<(usize, Out)>(line) {
+                Ok(x) => outs.push(x),
+                Err(_) => break, // torn last line of a dead child
+            }
+        }
+        if libc::WIFEXITED(status) && libc::WEXITSTATUS(status) == 0 {
+            (outs, None)
+        } else if libc::WIFEXITED(status) && (libc::WEXITSTATUS(status) == 3 || libc::WEXITSTATUS(status) == 4) {
+            let p = std::fs::read_to_string(scratch.join("child_harness_panic.txt")).unwrap_or_default();
+            panic!("harness failure inside child (outside any oracle): {p}");
         } else if libc::WIFSIGNALED(status) {
             let sig = libc::WTERMSIG(status);
             let how = if sig == libc::SIGALRM { "hang-signal14".to_string() } else { format!("signal{sig}") };
-            Exit::Died { how, at: shared.get() }
+            (outs, Some(Died { how, block: shared.get_block(), at: shared.get() }))
         } else {
-            Exit::Died { how: format!("exit{}", libc::WEXITSTATUS(status)), at: shared.get() }
+            (outs, Some(Died { how: format!("exit{}", libc::WEXITSTATUS(status)), block: shared.get_block(), at: shared.get() }))
         }
     }
 }
-use iso::{Exit, Out, Shared, Viol};
+use iso::{Out, Shared, Viol};
 
 // ======================================================================
 // per-call recorder (lives in the child)
@@ -316,13 +352,13 @@ fn child_run_block(b: &dyn Block, mode: &Mode, env: &mut Env, shared: &Shared, o
     let info = b.info();
     let mut seen: BTreeSet<(&'static str, u8)> = BTreeSet::new();
     let limit = info.hang_s * hang_mult;
-    let mut k = 0u64;
-    let mut run_one = |i: u64, env: &mut Env, out: &mut Out, seen: &mut BTreeSet<(&'static str, u8)>| {
+    let k = std::cell::Cell::new(0u64);
+    let run_one = |i: u64, env: &mut Env, out: &mut Out, seen: &mut BTreeSet<(&'static str, u8)>| {
         shared.set(i);
-        if k % 32 == 0 || info.hang_s >= HANG_B_S {
+        if k.get() % 256 == 0 || info.hang_s >= HANG_B_S {
             unsafe { libc::alarm(limit) };
         }
-        k += 1;
+        k.set(k.get() + 1);
         out.cases += 1;
         if b.run(i, env, out, seen) {
             out.nontrivial += 1;
@@ -340,7 +376,7 @@ fn child_run_block(b: &dyn Block, mode: &Mode, env: &mut Env, shared: &Shared, o
                 if !skip.contains(&i) {
                     run_one(i, env, out, &mut seen);
                     if let Some(d) = deadline {
-                        if k % 256 == 0 && std::time::Instant::now() >= d {
+                        if k.get() % 256 == 0 && std::time::Instant::now() >= d {
                             out.capped = Some(format!("deadline inside block {} at case {}", info.key, i));
                             break;
                         }
@@ -392,42 +428,78 @@ fn death_case(b: &dyn Block, i: u64, mode: &str, sel: Option<Sel>, skip: &[u64])
     c
 }
 
-/// Run one block in forked children, attributing and skipping deadly cases.
-fn run_block(b: &dyn Block, sel: Sel, ctx: &Ctx, rep: &mut Reporter, shared: &Shared, env: &mut Env) {
-    let info = b.info();
-    let mut skip: Vec<u64> = Vec::new();
-    loop {
-        rep.begin_case(&json!({"block": info.key, "mode": "block", "sel": sel.json(), "skip": skip}).to_string());
+/// Run blocks `from..` in one forked child; on a death attribute the case,
+/// confirm it alone in a fresh child, skip it and resume at the block it died in.
+fn run_group(blocks: &[Box<dyn Block>], sels: &[Sel], from: usize, mut skips: BTreeMap<usize, Vec<u64>>, ctx: &Ctx, rep: &mut Reporter, shared: &Shared, env: &mut Env) {
+    let mut start = from;
+    while start < blocks.len() {
+        rep.begin_case(&json!({"mode": "group", "block": blocks[start].info().key, "from": start, "skips": skips.iter().map(|(k, v)| (k.to_string(), v.clone())).collect::<BTreeMap<_, _>>(),
+                               "sel": sels[start].json()}).to_string());
         let dl = ctx.deadline;
-        let ex = iso::run_child(&ctx.scratch, shared, |out| child_run_block(b, &Mode::All { sel, skip: &skip }, env, shared, out, 1, Some(dl)));
-        match ex {
-            Exit::Done(o) => {
-                merge_out(rep, info, &o);
-                break;
-            }
-            Exit::Died { how, at } => {
-                if at == u64::MAX {
-                    vcore::machinery(&format!("child of block {} died ({how}) before its first case", info.key));
+        let (outs, died) = iso::run_child(&ctx.scratch, shared, |em| {
+            for bi in start..blocks.len() {
+                let b = blocks[bi].as_ref();
+                if b.info().n == 0 {
+                    continue;
                 }
-                rep.count("child_deaths", 1);
-                // confirm with the single case in a fresh child (longer hang limit)
-                let single = iso::run_child(&ctx.scratch, shared, |out| child_run_block(b, &Mode::Only(at), env, shared, out, 5, None));
-                match single {
-                    Exit::Died { how: how2, .. } => {
-                        let sig = format!("C23/{}/{}/{}", info.dec, info.kind, how2);
-                        rep.violation("C23", "no-crash", &sig, || death_case(b, at, "single", None, &[]), "call returns Ok or Err", &format!("child process died: {how2} (in block run: {how})"));
-                    }
-                    Exit::Done(_) => {
-                        let sig = format!("C23/{}/{}/{}-in-sequence", info.dec, info.kind, how);
-                        rep.violation("C23", "no-crash", &sig, || death_case(b, at, "prefix", Some(sel), &skip), "call returns Ok or Err", &format!("child process died: {how} (only after the preceding cases of the block)"));
-                    }
+                shared.set(u64::MAX);
+                shared.set_block(bi as u64);
+                let mut out = Out::default();
+                if std::time::Instant::now() >= dl {
+                    out.capped = Some(format!("deadline before block {}", b.info().key));
+                    em.emit(bi, &out);
+                    break;
                 }
-                skip.push(at);
-                if skip.len() >= MAX_DEATHS_PER_BLOCK {
-                    rep.capped(&format!("block {}: more than {} deadly cases, rest of block not explored by this worker", info.key, MAX_DEATHS_PER_BLOCK));
+                let empty = Vec::new();
+                let skip = skips.get(&bi).unwrap_or(&empty);
+                child_run_block(b, &Mode::All { sel: sels[bi], skip }, env, shared, &mut out, 1, Some(dl));
+                let stop = out.capped.is_some();
+                em.emit(bi, &out);
+                if stop {
                     break;
                 }
             }
+        });
+        let mut capped = false;
+        for (bi, o) in &outs {
+            merge_out(rep, blocks[*bi].info(), o);
+            capped |= o.capped.is_some();
+        }
+        let Some(d) = died else { break };
+        if capped {
+            break;
+        }
+        if d.block == u64::MAX || d.at == u64::MAX {
+            vcore::machinery(&format!("child died ({}) outside any case (block {:?})", d.how, d.block));
+        }
+        let bi = d.block as usize;
+        let b = blocks[bi].as_ref();
+        let info = b.info();
+        rep.count("child_deaths", 1);
+        let (_, single) = iso::run_child(&ctx.scratch, shared, |em| {
+            shared.set_block(bi as u64);
+            let mut out = Out::default();
+            child_run_block(b, &Mode::Only(d.at), env, shared, &mut out, 5, None);
+            em.emit(bi, &out);
+        });
+        let skip_now = skips.get(&bi).cloned().unwrap_or_default();
+        match single {
+            Some(d2) => {
+                let sig = format!("C23/{}/{}/{}", info.dec, info.kind, d2.how);
+                rep.violation("C23", "no-crash", &sig, || death_case(b, d.at, "single", None, &[]), "call returns Ok or Err", &format!("child process died: {} (in block run: {})", d2.how, d.how));
+            }
+            None => {
+                let sig = format!("C23/{}/{}/{}-in-sequence", info.dec, info.kind, d.how);
+                rep.violation("C23", "no-crash", &sig, || death_case(b, d.at, "prefix", Some(sels[bi]), &skip_now), "call returns Ok or Err", &format!("child process died: {} (only after the preceding cases of the block)", d.how));
+            }
+        }
+        let e = skips.entry(bi).or_default();
+        e.push(d.at);
+        if e.len() >= MAX_DEATHS_PER_BLOCK {
+            rep.capped(&format!("block {}: {} deadly cases, rest of the block not explored by this worker", info.key, MAX_DEATHS_PER_BLOCK));
+            start = bi + 1;
+        } else {
+            start = bi;
         }
     }
 }
@@ -653,8 +725,8 @@ impl Block for ABlock {
         let mut buf = std::mem::take(&mut env.buf);
         let ok = mutate(&seed.bytes, self.kind, i, &self.offs, &mut buf).is_some();
         if ok {
-            let scratch = env.scratch.clone();
-            self.exec(&buf, &mut env.small, &mut env.page, &scratch, out, seen, &|| self.describe(i));
+            let Env { small, page, scratch, .. } = env;
+            self.exec(&buf, small, page, scratch, out, seen, &|| self.describe(i));
         }
         env.buf = buf;
         ok && self.kind != Kind::Identity
@@ -668,6 +740,7 @@ struct SBlock {
     info: BlockInfo,
     dec: std::rc::Rc<Decoder>,
     repeat: bool,
+    pats: Vec<Vec<u8>>,
 }
 const ALPHA16: [u8; 16] = [0x00, 0x01, 0x02, 0x03, 0x04, 0x05, 0x08, 0x10, 0x14, 0x20, 0x55, 0x60, 0x7F, 0x80, 0xFE, 0xFF];
 const SHORT_N: u64 = 1 + 256 + 65536 + 4096;
@@ -683,8 +756,7 @@ impl SBlock {
     fn bytes(&self, i: u64, buf: &mut Vec<u8>) {
         buf.clear();
         if self.repeat {
-            let pats = repeat_patterns();
-            let p = &pats[(i / REP_LENS.len() as u64) as usize];
+            let p = &self.pats[(i / REP_LENS.len() as u64) as usize];
             let l = REP_LENS[(i % REP_LENS.len() as u64) as usize];
             while buf.len() < l {
                 buf.extend_from_slice(p);
@@ -872,7 +944,7 @@ fn part_a_blocks(ctx: &Ctx, only_key: Option<&str>) -> Vec<Box<dyn Block>> {
                         continue;
                     }
                 }
-                blocks.push(Box::new(SBlock { info: BlockInfo { key, dec: d.name.to_string(), kind: kn.to_string(), n, hang_s: HANG_A_S }, dec: d.clone(), repeat }));
+                blocks.push(Box::new(SBlock { info: BlockInfo { key, dec: d.name.to_string(), kind: kn.to_string(), n, hang_s: HANG_A_S }, dec: d.clone(), repeat, pats: repeat_patterns() }));
             }
         }
     }
@@ -931,19 +1003,12 @@ impl Check for C23 {
         rep.bound("blocks", json!(blocks.len()));
         rep.bound("hang_limit_s", json!({"A": HANG_A_S, "B": HANG_B_S}));
         let mut base = 0u64;
+        let mut sels = Vec::new();
         for b in &blocks {
-            let info = b.info();
-            let sel = Sel { m: ctx.workers as u64, r: ctx.worker as u64, s: ctx.seed, base };
-            base += info.n;
-            if ctx.expired() {
-                rep.capped(&format!("deadline before block {}", info.key));
-                break;
-            }
-            if info.n == 0 {
-                continue;
-            }
-            run_block(b.as_ref(), sel, ctx, rep, &shared, &mut env);
+            sels.push(Sel { m: ctx.workers as u64, r: ctx.worker as u64, s: ctx.seed, base });
+            base += b.info().n;
         }
+        run_group(&blocks, &sels, 0, BTreeMap::new(), ctx, rep, &shared, &mut env);
         rep.bound("enumerated_case_slots", json!(base));
         rep.expect_nonzero("varint.cases");
     }
@@ -957,22 +1022,43 @@ impl Check for C23 {
         let info = b.info();
         let mode = case["mode"].as_str().unwrap_or("single");
         let skip: Vec<u64> = case["skip"].as_array().map(|a| a.iter().filter_map(|x| x.as_u64()).collect()).unwrap_or_default();
+        let bi = blocks.iter().position(|x| x.info().key == key).unwrap();
         match mode {
-            "block" => {
-                let sel = Sel::from_json(&case["sel"]);
-                run_block(b.as_ref(), sel, ctx, rep, &shared, &mut env);
+            "group" => {
+                // fallback descriptor written with begin_case: re-run from that block on
+                let all = all_blocks(ctx, None);
+                let mut sels = Vec::new();
+                let s0 = Sel::from_json(&case["sel"]);
+                let mut base = 0u64;
+                for b in &all {
+                    sels.push(Sel { base, ..s0 });
+                    base += b.info().n;
+                }
+                let from = case["from"].as_u64().unwrap_or(0) as usize;
+                let mut skips = BTreeMap::new();
+                if let Some(o) = case["skips"].as_object() {
+                    for (k, v) in o {
+                        skips.insert(k.parse::<usize>().unwrap_or(0), v.as_array().map(|a| a.iter().filter_map(|x| x.as_u64()).collect()).unwrap_or_default());
+                    }
+                }
+                run_group(&all, &sels, from, skips, ctx, rep, &shared, &mut env);
             }
             "prefix" => {
                 let i = case["i"].as_u64().unwrap_or(0);
                 let sel = Sel::from_json(&case["sel"]);
-                let ex = iso::run_child(&ctx.scratch, &shared, |out| child_run_block(b.as_ref(), &Mode::Prefix { sel, upto: i, skip: &skip }, &mut env, &shared, out, 1, None));
-                match ex {
-                    Exit::Done(o) => merge_out(rep, info, &o),
-                    Exit::Died { how, .. } => {
-                        rep.bulk(1, 1);
-                        let sig = format!("C23/{}/{}/{}-in-sequence", info.dec, info.kind, how);
-                        rep.violation("C23", "no-crash", &sig, || case.clone(), "call returns Ok or Err", &format!("child process died: {how}"));
-                    }
+                let (outs, died) = iso::run_child(&ctx.scratch, &shared, |em| {
+                    shared.set_block(bi as u64);
+                    let mut out = Out::default();
+                    child_run_block(b.as_ref(), &Mode::Prefix { sel, upto: i, skip: &skip }, &mut env, &shared, &mut out, 1, None);
+                    em.emit(bi, &out);
+                });
+                for (_, o) in &outs {
+                    merge_out(rep, info, o);
+                }
+                if let Some(d) = died {
+                    rep.bulk(1, 1);
+                    let sig = format!("C23/{}/{}/{}-in-sequence", info.dec, info.kind, d.how);
+                    rep.violation("C23", "no-crash", &sig, || case.clone(), "call returns Ok or Err", &format!("child process died: {}", d.how));
                 }
             }
             _ => {
@@ -980,14 +1066,19 @@ impl Check for C23 {
                 if i >= info.n {
                     vcore::machinery("C23 replay: case index out of range");
                 }
-                let ex = iso::run_child(&ctx.scratch, &shared, |out| child_run_block(b.as_ref(), &Mode::Only(i), &mut env, &shared, out, 5, None));
-                match ex {
-                    Exit::Done(o) => merge_out(rep, info, &o),
-                    Exit::Died { how, .. } => {
-                        rep.bulk(1, 1);
-                        let sig = format!("C23/{}/{}/{}", info.dec, info.kind, how);
-                        rep.violation("C23", "no-crash", &sig, || case.clone(), "call returns Ok or Err", &format!("child process died: {how}"));
-                    }
+                let (outs, died) = iso::run_child(&ctx.scratch, &shared, |em| {
+                    shared.set_block(bi as u64);
+                    let mut out = Out::default();
+                    child_run_block(b.as_ref(), &Mode::Only(i), &mut env, &shared, &mut out, 5, None);
+                    em.emit(bi, &out);
+                });
+                for (_, o) in &outs {
+                    merge_out(rep, info, o);
+                }
+                if let Some(d) = died {
+                    rep.bulk(1, 1);
+                    let sig = format!("C23/{}/{}/{}", info.dec, info.kind, d.how);
+                    rep.violation("C23", "no-crash", &sig, || case.clone(), "call returns Ok or Err", &format!("child process died: {}", d.how));
                 }
             }
         }
